@@ -162,6 +162,20 @@ func newPkg(pkg *packages.Package, u *Universe) Package {
 		}
 	}
 
+	// a package without syntax (unsafe) has no Defs: take its package-level objects from the scope
+	if len(p.Package.Syntax) == 0 && pkgScope != nil {
+		for _, name := range pkgScope.Names() {
+			switch x := pkgScope.Lookup(name).(type) {
+			case *types.Func:
+				p.funcs[name] = x
+			case *types.TypeName:
+				p.types[name] = x
+			case *types.Const:
+				p.constants[name] = x
+			}
+		}
+	}
+
 	for i := range p.Package.Syntax {
 		f := p.Package.Syntax[i]
 
